@@ -55,6 +55,8 @@ def token_ok(w, domain):
         return not any(c in w for c in '/{}\\') and w not in BRACKET_WORDS
     if domain == 'xml':
         return True
+    if domain == 'all':           # representable by every format at once
+        return token_ok(w, 'ja') and token_ok(w, 'ptb') and token_ok(w, 'auto')
     raise ValueError(domain)
 
 
@@ -115,10 +117,52 @@ class GrammarIndex:
             for r in G.apply_unary_rules(x, self.unary_table):
                 self.unary_index[r.cat].append((x, r))
                 self.labels[(r.op_string, r.op_symbol)] += 1
+        # keep only rules whose children can be derived from the tag inventory (no dead ends, realistic derivations)
+        all_labels = dict(self.labels)
+        gen_set = set(self.inv_set)
+        changed = True
+        while changed:
+            changed = False
+            for cat, lst in self.binary_index.items():
+                if cat not in gen_set and any(x in gen_set and y in gen_set for x, y, _ in lst):
+                    gen_set.add(cat)
+                    changed = True
+            for cat, lst in self.unary_index.items():
+                if cat not in gen_set and any(x in gen_set for x, _ in lst):
+                    gen_set.add(cat)
+                    changed = True
+        self.generable = gen_set
+        for cat in list(self.binary_index):
+            self.binary_index[cat] = [(x, y, r) for x, y, r in self.binary_index[cat] if x in gen_set and y in gen_set]
+            if not self.binary_index[cat]:
+                del self.binary_index[cat]
+        for cat in list(self.unary_index):
+            self.unary_index[cat] = [(x, r) for x, r in self.unary_index[cat] if x in gen_set]
+            if not self.unary_index[cat]:
+                del self.unary_index[cat]
+        self.labels = defaultdict(int)
+        for lst in self.binary_index.values():
+            for _, _, r in lst:
+                self.labels[(r.op_string, r.op_symbol)] += 1
+        for lst in self.unary_index.values():
+            for _, r in lst:
+                self.labels[(r.op_string, r.op_symbol)] += 1
+        self.labels_unreachable = sorted(set(all_labels) - set(self.labels))
         self.by_label = defaultdict(list)
         for cat, lst in self.binary_index.items():
             for x, y, r in lst:
                 self.by_label[(r.op_string, r.op_symbol)].append((x, y, r))
+        # binary rules one of whose children can be produced by a unary step with a given label
+        self.unary_by_label = defaultdict(list)
+        self.unary_hosts = defaultdict(list)
+        for ucat, lst in self.unary_index.items():
+            for x, r in lst:
+                self.unary_by_label[(r.op_string, r.op_symbol)].append((x, r))
+        for cat, lst in self.binary_index.items():
+            for x, y, rr in lst:
+                for side, c in ((0, x), (1, y)):
+                    for ux, ur in self.unary_index.get(c, ()):
+                        self.unary_hosts[(ur.op_string, ur.op_symbol)].append((x, y, rr, side, ux, ur))
 
     def binary(self, x, y):
         return self.G.apply_binary_rules(x, y)
@@ -183,6 +227,18 @@ def licensed_tree(rng, lang, token_fn, max_leaves=9, want_label=None, tokens=Non
             if want_label is not None and ix.by_label.get(want_label):
                 x, y, r = rng.choice(ix.by_label[want_label])
                 t = Tree.make_binary(r.cat, expand(x, 1, False), expand(y, 1, False), r.op_string, r.op_symbol, r.head_is_left)
+            elif want_label is not None and ix.unary_hosts.get(want_label):
+                x, y, rr, side, ux, ur = rng.choice(ix.unary_hosts[want_label])
+                kids = []
+                for k, c in enumerate((x, y)):
+                    if k == side:
+                        kids.append(Tree.make_unary(c, expand(ux, 2, False), ur.op_string, ur.op_symbol))
+                    else:
+                        kids.append(expand(c, 1, False))
+                t = Tree.make_binary(rr.cat, kids[0], kids[1], rr.op_string, rr.op_symbol, rr.head_is_left)
+            elif want_label is not None and ix.unary_by_label.get(want_label):
+                ux, ur = rng.choice(ix.unary_by_label[want_label])
+                t = Tree.make_unary(ur.cat, expand(ux, 1, False), ur.op_string, ur.op_symbol)
             else:
                 root = rng.choice(ix.roots)
                 t = expand(root, 0, True)
